@@ -1,16 +1,23 @@
 #!/usr/bin/env python3
-"""Rewrites lean/Driver/Main.lean from the Driver/*.lean files present (one import and one entries term each)."""
-import os, re
-d='/verif/lean/Driver' if len(os.sys.argv)<2 else os.sys.argv[1]
-mods=sorted(f[:-5] for f in os.listdir(d) if f.endswith('.lean') and f not in ('Main.lean','Util.lean'))
-mods=[m for m in mods if re.search(r'^def entries', open(os.path.join(d,m+'.lean')).read(), re.M)]
-out='import Std.Data.HashMap\nimport Driver.Util\n'+''.join('import Driver.%s\n'%m for m in mods)
-out+='open Driver\n\ndef allEntries : List Entry :=\n  '+'\n  ++ '.join('Driver.%s.entries'%m for m in mods)+'\n'
-out+='''
-def table : Std.HashMap String Handler :=
-  allEntries.foldl (fun m e => m.insert (e.kind ++ " " ++ e.op) e.run) {}
+"""Regenerates the per-property driver roots lean/Driver/Main_<ID>.lean and lean/lakefile.toml from props/*.py.
+Each property gets its own executable (driver_<ID>) importing only the Driver modules it needs, so that a
+model another property regenerates from /repo (Gen/*.lean) cannot break this property's check."""
+import os, re, sys
+V = os.path.dirname(os.path.abspath(__file__))
+sys.path.insert(0, V)
+from props_config import PROPS
+d = os.path.join(V, 'lean', 'Driver')
+for f in os.listdir(d):
+    if f.startswith('Main'):
+        os.remove(os.path.join(d, f))
+open(os.path.join(d, 'Loop.lean'), 'w').write('''import Std.Data.HashMap
+import Driver.Util
+namespace Driver
 
-def step (line : String) : String :=
+def mkTable (es : List Entry) : Std.HashMap String Handler :=
+  es.foldl (fun m e => m.insert (e.kind ++ " " ++ e.op) e.run) {}
+
+def step (table : Std.HashMap String Handler) (line : String) : String :=
   match (line.trimAscii.toString.splitOn " ").filter (· ≠ "") with
   | k :: op :: args =>
     match table.get? (k ++ " " ++ op) with
@@ -18,17 +25,35 @@ def step (line : String) : String :=
     | none => "bad-op"
   | _ => "bad-op"
 
-partial def loop (hin hout : IO.FS.Stream) : IO Unit := do
+partial def loop (table : Std.HashMap String Handler) (hin hout : IO.FS.Stream) : IO Unit := do
   let line ← hin.getLine
   if line.isEmpty then return ()
-  hout.putStrLn (step line)
-  loop hin hout
+  hout.putStrLn (step table line)
+  loop table hin hout
 
-def main : IO Unit := do
+def run (es : List Entry) : IO Unit := do
   let hin ← IO.getStdin
   let hout ← IO.getStdout
-  loop hin hout
+  loop (mkTable es) hin hout
   hout.flush
+
+end Driver
+''')
+lake = '''name = "manticore"
+version = "0.1.0"
+defaultTargets = ["Manticore"]
+
+[[lean_lib]]
+name = "Manticore"
+
+[[lean_lib]]
+name = "Driver"
 '''
-open(os.path.join(d,'Main.lean'),'w').write(out)
-print(mods)
+for pid in sorted(PROPS):
+    mods = PROPS[pid].get('drivers', [pid])
+    src = 'import Driver.Loop\n' + ''.join('import Driver.%s\n' % m for m in mods)
+    src += '\ndef main : IO Unit := Driver.run (' + ' ++ '.join('Driver.%s.entries' % m for m in mods) + ')\n'
+    open(os.path.join(d, 'Main_%s.lean' % pid), 'w').write(src)
+    lake += '\n[[lean_exe]]\nname = "driver_%s"\nroot = "Driver.Main_%s"\n' % (pid, pid)
+open(os.path.join(V, 'lean', 'lakefile.toml'), 'w').write(lake)
+print(sorted(PROPS))
